@@ -275,7 +275,10 @@ def cmd_check(args):
             if pid not in modes:
                 continue
             safety_only = modes[pid] == "safety"
-            name = f"{un}::{it['fn_name']}" + (" [no-abort obligations]" if safety_only else "")
+            qual = ""
+            if it["sel"].startswith("impl "):
+                qual = "<" + it["sel"].split("::")[0].strip()[5:].strip() + ">::"
+            name = f"{un}::{qual}{it['fn_name']}" + (" [no-abort obligations]" if safety_only else "")
             fr = func_result(res, it["fn_name"], it["sel"])
             has_body = any(True for _ in fr)
             ms = sum(v["ms"] for _, v in fr)
